@@ -106,8 +106,8 @@ def run(tier):
     cov["project_level"] = {"projects": pj["evaluated"].get("C15", 0), "with_conflicts": pj["nontrivial"].get("C15", 0)}
     if pj["evaluated"].get("C15", 0) == 0:
         raise c.Trouble("project-level C15 run evaluated nothing")
-    proj_violations = []
-    for f in proj_findings[:2]:
+    proj_violations, unreproduced = [], []
+    for f in proj_findings[:3]:
         # isolation: re-run that single project in a fresh directory / process
         one = os.path.join(sc, "c15one-%s.cases" % f["id"])
         import hashlib
@@ -116,10 +116,15 @@ def run(tier):
                 if line.startswith('"CASE ') and "c" + hashlib.sha256(json.loads(line).encode()).hexdigest()[:12] == f["id"]:
                     fo.write(line)
         rec1 = one + ".rec"
-        f1.pipe_run(v, c.build_gleece(), one, rec1, os.path.join(sc, "c15work1"), ["--main=false", "--alt=false"])
-        again = [x for x in f1.judge(v, rec1, rec1 + ".json")["findings"] if x["prop"] == "C15"]
+        again = []
+        for attempt in range(4):      # the order in which controllers are validated comes from a map iteration: a miss may need a few runs to show again
+            f1.pipe_run(v, c.build_gleece(), one, rec1, os.path.join(sc, "c15work1"), ["--main=false", "--alt=false"])
+            again = [x for x in f1.judge(v, rec1, rec1 + ".json")["findings"] if x["prop"] == "C15"]
+            if again:
+                break
         if not again:
-            raise c.Trouble("project-level C15 candidate not reproduced in isolation: " + f["what"])
+            unreproduced.append(f["what"])    # decided after the trie-level candidates: something reproducible is reported first
+            continue
         keep = os.path.join(c.REPLAYS, "C15-%s.cases" % f["id"])
         os.makedirs(c.REPLAYS, exist_ok=True)
         import shutil
@@ -150,6 +155,8 @@ def run(tier):
             violations.append((desc, path))
 
     violations += proj_violations
+    if unreproduced and not violations:
+        raise c.Trouble("project-level C15 candidate not reproduced in isolation: " + unreproduced[0])
     cov["traces_validated_against_impl"] = replayed + len(events)
     cov["evaluations"] = replayed + len(events)
     cov["distinct_nontrivial"] = nontrivial
